@@ -2,6 +2,9 @@ package c19
 
 import (
 	"fmt"
+	"unsafe"
+
+	"verif/harness/vk"
 )
 
 // guard hands out the live arguments of a call: every slice is a window into
@@ -14,6 +17,21 @@ type guard struct {
 	byt        []byteRegion
 	strs       []strRegion
 	keyRegions []keysRegion
+	more       []func() string  // verifiers of the regions made by window / byteLists / intLists
+	empties    int              // empty slices handed out so far
+	salt       uint64           // decides nil / empty (a value of the case: see asNil)
+	ar         *arena           // when set, windows are carved out of memory that earlier cases used too
+	shared     map[int][]uint64 // bitmaps shared by several calls of a round (Args.Sh)
+}
+
+// asNil decides how an EMPTY slice argument reaches the library: as nil or as an empty non-nil slice,
+// each for about half of the cases. It is a function of the case's salt and of the number of empty
+// slices handed out so far, NOT of the guard's placement: every evaluation of one case (first,
+// repeated, relocated) uses the same shape, so results are only ever compared between calls whose
+// arguments are equal in this respect too (a function may tell nil from empty).
+func (g *guard) asNil() bool {
+	g.empties++
+	return vk.Mix(g.salt+uint64(g.empties)*0x9e37)&1 == 0
 }
 
 type u64Region struct{ buf, saved []uint64 }
@@ -24,10 +42,66 @@ type strRegion struct {
 	saved []byte
 }
 
-func newGuard(shift int) *guard { return &guard{pre: 1 + shift%4, post: 2 + shift%3} }
+func newGuard(shift int, salt uint64) *guard {
+	return &guard{pre: 1 + shift%4, post: 2 + shift%3, salt: salt}
+}
+
+// arena is memory that is handed out again and again: the arguments of successive cases then sit at
+// the SAME addresses with different content. Fresh allocations would hide state that a function
+// keys by the address of an argument (a memo that survives a change of content): with an arena the
+// first evaluation of a case meets what an earlier case left behind under that address, the relocated
+// evaluation (freshly allocated memory) does not. Requests that do not fit are allocated. One goroutine sets
+// up the arguments of a case; the goroutines of a round only read them.
+type arena struct {
+	u64        []uint64
+	i32        []int32
+	byt        []byte
+	ou, oi, ob int
+}
+
+var arenas = [4]*arena{}
+
+// inArena makes g carve its windows out of arena k, starting over at its beginning when reset is set.
+func (g *guard) inArena(k int, reset bool) *guard {
+	if arenas[k] == nil {
+		arenas[k] = &arena{u64: make([]uint64, 1<<16), i32: make([]int32, 1<<16), byt: make([]byte, 1<<16)}
+	}
+	g.ar = arenas[k]
+	if reset {
+		g.ar.ou, g.ar.oi, g.ar.ob = 0, 0, 0
+	}
+	return g
+}
+
+func (g *guard) allocU64(n int) []uint64 {
+	if a := g.ar; a != nil && a.ou+n <= len(a.u64) {
+		a.ou += n
+		return a.u64[a.ou-n : a.ou : a.ou]
+	}
+	return make([]uint64, n)
+}
+
+func (g *guard) allocI32(n int) []int32 {
+	if a := g.ar; a != nil && a.oi+n <= len(a.i32) {
+		a.oi += n
+		return a.i32[a.oi-n : a.oi : a.oi]
+	}
+	return make([]int32, n)
+}
+
+func (g *guard) allocBytes(n int) []byte {
+	if a := g.ar; a != nil && a.ob+n <= len(a.byt) {
+		a.ob += n
+		return a.byt[a.ob-n : a.ob : a.ob]
+	}
+	return make([]byte, n)
+}
 
 func (g *guard) words(w []uint64) []uint64 {
-	buf := make([]uint64, g.pre+len(w)+g.post)
+	if len(w) == 0 && g.asNil() {
+		return nil
+	}
+	buf := g.allocU64(g.pre + len(w) + g.post)
 	for i := range buf {
 		buf[i] = 0xC0FFEE0000000000 | uint64(i)
 	}
@@ -37,7 +111,10 @@ func (g *guard) words(w []uint64) []uint64 {
 }
 
 func (g *guard) ints(w []int32) []int32 {
-	buf := make([]int32, g.pre+len(w)+g.post)
+	if len(w) == 0 && g.asNil() {
+		return nil
+	}
+	buf := g.allocI32(g.pre + len(w) + g.post)
 	for i := range buf {
 		buf[i] = int32(-0x0BADBEE0 - i)
 	}
@@ -47,7 +124,10 @@ func (g *guard) ints(w []int32) []int32 {
 }
 
 func (g *guard) bytes(w []byte) []byte {
-	buf := make([]byte, g.pre+len(w)+g.post)
+	if len(w) == 0 && g.asNil() {
+		return nil
+	}
+	buf := g.allocBytes(g.pre + len(w) + g.post)
 	for i := range buf {
 		buf[i] = byte(0xA5 ^ i)
 	}
@@ -56,11 +136,135 @@ func (g *guard) bytes(w []byte) []byte {
 	return buf[g.pre : g.pre+len(w) : len(buf)]
 }
 
-// str returns a fresh heap string with the given bytes.
+// str returns a heap string with the given bytes: a substring of a larger fresh string, 0..7 bytes
+// into it (so its data is 8-aligned for some placements and not for others), with non-zero foreign
+// bytes before and after it. The whole string is compared with its snapshot by verify.
 func (g *guard) str(b []byte) string {
-	s := string(append(make([]byte, 0, len(b)+g.pre), b...)) // conversion copies: own backing array
-	g.strs = append(g.strs, strRegion{s, append([]byte(nil), b...)})
-	return s
+	off := (g.pre*3 + len(g.strs)*5) % 8
+	buf := make([]byte, off+len(b)+9)
+	for i := range buf {
+		buf[i] = byte(0xA5 ^ i*7)
+		if buf[i] == 0 {
+			buf[i] = 0x5A
+		}
+	}
+	copy(buf[off:], b)
+	whole := string(buf) // conversion copies: own backing array
+	g.strs = append(g.strs, strRegion{whole, buf})
+	return whole[off : off+len(b)]
+}
+
+// bm returns the guarded bitmap argument 0 of a call; calls of one round that carry the same
+// non-zero Args.Sh get the very same slice (one backing array shared by different calls).
+func (g *guard) bm(a Args) []uint64 {
+	if a.Sh == 0 {
+		return g.words(a.w(0))
+	}
+	if w, ok := g.shared[a.Sh]; ok {
+		return w
+	}
+	if g.shared == nil {
+		g.shared = map[int][]uint64{}
+	}
+	w := g.words(a.w(0))
+	g.shared[a.Sh] = w
+	return w
+}
+
+// window is words/ints/bytes for any element type: canaries before the window and in its spare capacity.
+func window[T comparable](g *guard, w []T, canary func(i int) T, what string) []T {
+	if len(w) == 0 && g.asNil() {
+		return nil
+	}
+	buf := make([]T, g.pre+len(w)+g.post)
+	for i := range buf {
+		buf[i] = canary(i)
+	}
+	copy(buf[g.pre:], w)
+	saved := append([]T(nil), buf...)
+	pre := g.pre
+	g.more = append(g.more, func() string {
+		for i := range buf {
+			if buf[i] != saved[i] {
+				return fmt.Sprintf("%s argument: element %d (window starts at %d, len %d) changed from %v to %v", what, i, pre, len(w), saved[i], buf[i])
+			}
+		}
+		return ""
+	})
+	return buf[pre : pre+len(w) : len(buf)]
+}
+
+type sliceHeader struct {
+	p        unsafe.Pointer
+	len, cap int
+}
+
+// byteLists returns a guarded [][]byte: every element is a guarded window of its own, the outer
+// slice has canary elements before it and in its spare capacity, and the element headers (pointer,
+// length, capacity) are compared too.
+func (g *guard) byteLists(bs [][]byte) [][]byte {
+	if len(bs) == 0 && g.asNil() {
+		return nil
+	}
+	buf := make([][]byte, g.pre+len(bs)+g.post)
+	for i := range buf {
+		buf[i] = []byte(fmt.Sprintf("\xffcanary-%d", i))
+	}
+	for i, b := range bs {
+		buf[g.pre+i] = g.bytes(b)
+	}
+	hdr := make([]sliceHeader, len(buf))
+	content := make([]string, len(buf))
+	for i, b := range buf {
+		hdr[i] = sliceHeader{unsafe.Pointer(unsafe.SliceData(b)), len(b), cap(b)}
+		content[i] = string(b)
+	}
+	pre := g.pre
+	g.more = append(g.more, func() string {
+		for i, b := range buf {
+			if h := (sliceHeader{unsafe.Pointer(unsafe.SliceData(b)), len(b), cap(b)}); h != hdr[i] {
+				return fmt.Sprintf("[][]byte argument: element %d (window starts at %d, len %d) was replaced (len %d cap %d, was len %d cap %d)", i, pre, len(bs), h.len, h.cap, hdr[i].len, hdr[i].cap)
+			}
+			if string(b) != content[i] {
+				return fmt.Sprintf("[][]byte argument: element %d (window starts at %d, len %d) changed from %x to %x", i, pre, len(bs), content[i], b)
+			}
+		}
+		return ""
+	})
+	return buf[pre : pre+len(bs) : len(buf)]
+}
+
+// intLists is byteLists for [][]int32.
+func (g *guard) intLists(ls [][]int32) [][]int32 {
+	if len(ls) == 0 && g.asNil() {
+		return nil
+	}
+	buf := make([][]int32, g.pre+len(ls)+g.post)
+	for i := range buf {
+		buf[i] = []int32{int32(-0x0CA7A210 - i)}
+	}
+	for i, l := range ls {
+		buf[g.pre+i] = g.ints(l)
+	}
+	hdr := make([]sliceHeader, len(buf))
+	content := make([]string, len(buf))
+	for i, b := range buf {
+		hdr[i] = sliceHeader{unsafe.Pointer(unsafe.SliceData(b)), len(b), cap(b)}
+		content[i] = fmt.Sprint(b)
+	}
+	pre := g.pre
+	g.more = append(g.more, func() string {
+		for i, b := range buf {
+			if h := (sliceHeader{unsafe.Pointer(unsafe.SliceData(b)), len(b), cap(b)}); h != hdr[i] {
+				return fmt.Sprintf("[][]int32 argument: element %d (window starts at %d, len %d) was replaced (len %d cap %d, was len %d cap %d)", i, pre, len(ls), h.len, h.cap, hdr[i].len, hdr[i].cap)
+			}
+			if fmt.Sprint(b) != content[i] {
+				return fmt.Sprintf("[][]int32 argument: element %d (window starts at %d, len %d) changed from %s to %v", i, pre, len(ls), content[i], b)
+			}
+		}
+		return ""
+	})
+	return buf[pre : pre+len(ls) : len(buf)]
 }
 
 func (g *guard) strings(bs [][]byte) []string {
@@ -96,7 +300,12 @@ func (g *guard) verify() string {
 	}
 	for ri, r := range g.strs {
 		if r.s != string(r.saved) {
-			return fmt.Sprintf("string argument #%d changed from %x to %x", ri, r.saved, r.s)
+			return fmt.Sprintf("string argument #%d (with its neighbouring bytes) changed from %x to %x", ri, clipBytes(r.saved), clipBytes([]byte(r.s)))
+		}
+	}
+	for _, v := range g.more {
+		if m := v(); m != "" {
+			return m
 		}
 	}
 	return g.verifyKeys()
@@ -109,8 +318,18 @@ type keysRegion struct {
 
 var _ = keysRegion{}
 
+func clipBytes(b []byte) []byte {
+	if len(b) > 200 {
+		return b[:200]
+	}
+	return b
+}
+
 // keys returns a guarded []string (canary strings around the window) of fresh heap strings.
 func (g *guard) keys(bs [][]byte) []string {
+	if len(bs) == 0 && g.asNil() {
+		return nil
+	}
 	buf := make([]string, g.pre+len(bs)+g.post)
 	for i := range buf {
 		buf[i] = fmt.Sprintf("\xffcanary-%d", i)
